@@ -108,6 +108,8 @@ class HistogramND(HistogramBase):
         array_index: List[Union[int, slice]] = [
             slice(None, None, None) for i in range(self.ndim)
         ]
+        if isinstance(index, np.integer):
+            index = int(index)
         array_index[axis_id] = index
 
         frequencies = self._frequencies[tuple(array_index)].copy()
@@ -145,9 +147,12 @@ class HistogramND(HistogramBase):
         Always returns a new object.
         """
         # TODO: Enable views
+        if isinstance(index, np.integer):
+            index = int(index)  # (e.g. from np.argmax)
         if isinstance(index, (int, slice)):
             return self.select(0, index)
         if isinstance(index, tuple):
+            index = tuple(int(i) if isinstance(i, np.integer) else i for i in index)
             if len(index) > self.ndim:
                 raise IndexError(
                     f"Too many indices ({len(index)}) to select from {self.ndim}D histogram"
